@@ -9,6 +9,7 @@ mod eng_adp;
 mod eng_obs;
 mod eng_conc;
 mod eng_own;
+mod eng_vconc;
 
 use common::*;
 use std::path::PathBuf;
@@ -38,6 +39,7 @@ fn main() {
         "obs" => eng_obs::run(&a, &mut sink, false),
         "conc" => eng_conc::run(&a, &mut sink),
         "own" => eng_own::run(&a, &mut sink),
+        "vconc" => eng_vconc::run(&a, &mut sink),
         "obsasync" => eng_obs::run(&a, &mut sink, true),
         e => {
             eprintln!("unknown engine {e}");
